@@ -264,6 +264,83 @@ fn other_rejections(ctx: &Ctx) {
     ctx.count("supplied_other_static_cases", pj.len() as u64);
 }
 
+
+/// A non-conforming peer (the reference model with its static PUBLIC key replaced by bytes that are not a point of
+/// the curve) sends a genuine, correctly encrypted handshake message whose `s` field carries that key, in deferred
+/// patterns where no DH touches `s` in the same message. snow accepts the message (the bad key only fails a later
+/// DH); an implementation that validates the key and rejects must not have left the payload in the caller's buffer.
+fn invalid_static_from_peer(ctx: &Ctx) {
+    use crate::exec::{build_real, key_bytes, payload_bytes};
+    use refnoise::state::HandshakeState as RefHs;
+    let mut jobs = vec![];
+    for (c, b) in cipher_backends() {
+        // (pattern, index of the message that carries the deferred static key, its writer is the initiator?)
+        for (pat, k) in [("X1N", 2usize), ("X1K", 2), ("X1X", 2), ("NX1", 1), ("XX1", 1), ("KX1", 1), ("I1K", 0), ("I1N", 0)] {
+            for cap_extra in [0usize, 7, 16, 300] {
+                jobs.push((c, b, pat, k, cap_extra));
+            }
+        }
+    }
+    jobs.par_iter().for_each(|(c, b, pat, k, cap_extra)| {
+        let dh = DhAlg::P256;
+        let p = proto(pat, &[], dh, *c, HashAlg::Sha256);
+        let mut cfg = Config::honest(&p, 0);
+        cfg.backend = [*b, *b];
+        let writer_is_init = k % 2 == 0;
+        let (ws, rs_) = if writer_is_init { (Side::I, Side::R) } else { (Side::R, Side::I) };
+        // the reference plays the writer of message k, real snow the reader
+        let Ok(mut refp) = RefHs::new(&p, writer_is_init, &cfg.prologue[ws.idx()], cfg.s_priv[ws.idx()].as_deref(), cfg.rs_pub[ws.idx()].as_deref(), &cfg.psks[ws.idx()]) else { return };
+        let Ok(mut real) = build_real(&cfg, rs_, &crate::seam::Log::new()) else { return };
+        let eph = key_bytes(if writer_is_init { 3 } else { 4 });
+        let plen = 24;
+        let pt = payload_bytes(plen, 0x5b);
+        let mut buf = vec![0u8; 4096];
+        let mut out = vec![0u8; 4096];
+        for j in 0..=*k {
+            let ref_writes = (j % 2 == 0) == writer_is_init;
+            if ref_writes {
+                if j == *k {
+                    // an encoding that is not on the curve: x = 5, y = 1
+                    if let Some(sk) = &mut refp.s {
+                        let mut bad = vec![0u8; 65];
+                        bad[0] = 4;
+                        bad[32] = 5;
+                        bad[64] = 1;
+                        sk.1 = bad;
+                    }
+                }
+                let Ok(w) = refp.write_message(if j == *k { &pt } else { b"" }, Some(&eph)) else { return };
+                if j == *k {
+                    let cap = plen + cap_extra;
+                    let mut o = vec![0xC9u8; cap];
+                    let r = real.read_message(&w.msg, &mut o);
+                    ctx.add(&ctx.evaluations, 1);
+                    ctx.add(&ctx.traces, 1);
+                    if r.is_err() {
+                        ctx.add(&ctx.nontrivial, 1);
+                        ctx.count("message with an invalid static key rejected", 1);
+                        if let Some(off) = leaks(&o, &pt) {
+                            ctx.violation("the output buffer of a handshake read that rejects the peer's static key contains the payload of the rejected message", format!("{} {:?}: plaintext window at offset {off}, buffer {cap} bytes", p.name, b), json!({"kind": "invalid-static"}));
+                        }
+                    } else {
+                        ctx.count("message with an invalid static key accepted (no validation at this point)", 1);
+                    }
+                    return;
+                }
+                if real.read_message(&w.msg, &mut out).is_err() {
+                    return;
+                }
+            } else {
+                let Ok(n) = real.write_message(b"", &mut buf) else { return };
+                if refp.read_message(&buf[..n]).is_err() {
+                    return;
+                }
+            }
+        }
+    });
+    ctx.count("invalid_static_cases", jobs.len() as u64);
+}
+
 pub fn run(tier: Tier) -> i32 {
     let ctx = Ctx::new("C19", tier, "fault_enumeration");
     // the whole thorough alphabet costs a few seconds: both tiers run it
@@ -380,6 +457,7 @@ pub fn run(tier: Tier) -> i32 {
     });
     ctx.count("encrypted_static_cases", scases.len() as u64);
     other_rejections(&ctx);
+    invalid_static_from_peer(&ctx);
     for (c, b) in cipher_backends() {
         direct(&ctx, c, b == Backend::Ring);
     }
@@ -392,6 +470,14 @@ pub fn run(tier: Tier) -> i32 {
 }
 
 pub fn replay(case: &serde_json::Value) -> Result<(), String> {
+    if case["kind"] == "invalid-static" {
+        let ctx = Ctx::new("C19", Tier::Quick, "fault_enumeration");
+        invalid_static_from_peer(&ctx);
+        return match ctx.violations.lock().unwrap().first() {
+            Some(v) => Err(format!("{}: {}", v.signature, v.detail)),
+            None => Ok(()),
+        };
+    }
     if case["kind"] == "reserved" {
         let ctx = Ctx::new("C19", Tier::Quick, "fault_enumeration");
         other_rejections(&ctx);
